@@ -10,6 +10,16 @@
 (* the fragment is a rational with denominator dividing Q = 840, so values    *)
 (* are compared as integers V = value*Q.  Recorded bounds b arrive as         *)
 (* lbQ = ceil((b - tol)*Q), ubQ = floor((b + tol)*Q) or the +-Inf sentinels.  *)
+(*                                                                            *)
+(* Functions that need reals (exp, a^x, log, log_a, x^a with fractional a,    *)
+(* sin .. atanh; Transc below) are decided on MEASUREMENTS: the harness        *)
+(* evaluates the function (libm) at sample points of the argument domain      *)
+(* (ends, middle, a fixed menu incl. multiples of pi/2, integers only for      *)
+(* integer arguments) and logs per point the margins of the value to the      *)
+(* assigned bounds in units of 1e-6 * max(1,|f|) (floor; lo: f - lb, hi:       *)
+(* ub - f; for a constant / alias answer: against that value) and whether the *)
+(* value is an integer.  TranscBad: a margin below -1 or integrality claimed   *)
+(* at a non-integer value.  Sampled observation, not a proof over the reals.  *)
 EXTENDS Integers, Sequences, FiniteSets, TLC
 
 Q == 840
@@ -97,6 +107,16 @@ ValQ(c, a) ==
                 den == X(seg + 1) - X(seg)
             IN IF Divides(den, num) THEN Y(seg) + SDiv(num, den) ELSE Skip
 
+\* functions decided on measured samples: r.samples = << [lo, hi, isint, defd], ... >>
+Transc == {"Exp", "ExpA", "Log", "LogA", "PowR", "Sin", "Cos", "Tan", "Asin", "Acos", "Atan",
+           "Sinh", "Cosh", "Tanh", "Asinh", "Acosh", "Atanh"}
+TranscBad(c, r) == {i \in 1..Len(r.samples) :
+                      LET s == r.samples[i] IN s.defd /\ (s.lo < -1 \/ s.hi < -1 \/ (r.kind = "var" /\ r.int /\ ~s.isint))}
+TranscVerdict(c, r) ==
+  IF r.kind \in {"throw", "unknowntype"} THEN [v |-> "refused", at |-> {}]
+  ELSE IF \A i \in 1..Len(r.samples) : ~r.samples[i].defd THEN [v |-> "vacuous", at |-> {}]
+  ELSE LET b == TranscBad(c, r) IN IF b = {} THEN [v |-> "ok", at |-> {}] ELSE [v |-> "unsound", at |-> b]
+
 \* verdict for one case: c = the generated case, r = what the converter answered
 \* (kind "const" valQ | "alias" var j (0-based argument) | "var" lbQ ubQ int | "throw")
 Values(c) == {ValQ(c, a) : a \in Box(c)} \ {Skip}
@@ -108,7 +128,8 @@ Bad(c, r) ==
                                 v # Skip /\ (v < r.lbQ \/ v > r.ubQ \/ (r.int /\ v % Q # 0))}
        [] OTHER -> {}
 Verdict(c, r) ==
-  IF r.kind \in {"throw", "unknowntype"} THEN [v |-> "refused", at |-> {}]
+  IF c.type \in Transc THEN TranscVerdict(c, r)
+  ELSE IF r.kind \in {"throw", "unknowntype"} THEN [v |-> "refused", at |-> {}]
   ELSE IF Values(c) = {} THEN [v |-> "vacuous", at |-> {}]
   ELSE LET b == Bad(c, r) IN IF b = {} THEN [v |-> "ok", at |-> {}] ELSE [v |-> "unsound", at |-> b]
 =============================================================================
